@@ -545,10 +545,15 @@ def run(ctx: common.Ctx):
       parts = sorted({sep[:j] for j in range(1, len(sep))} | {sep[j:] for j in range(1, len(sep))})
       alpha = parts + ['x' + q for q in parts] + [q + 'y' for q in parts] + ['', 'x', 'y', 'xy']
       multichar_case(gen_dict(rng, sep, max_depth=int(rng.choice([1, 2, 3])), alphabet=alpha), sep, 'overlap')
-  # domain statement (not a failure): NUL-suffixed keys
-  st, val = real(lambda: pu.flatten_dict({'a': 1, 'a\x00': 2}))
-  ctx.notes.append("domain: keys differing only by trailing NUL characters are outside the generator "
-                   f"(numpy strips them in np.unique): flatten_dict({{'a':1,'a\\x00':2}}) -> {st}")
+  # NUL-suffixed keys (repaired defect: np.unique on a numpy unicode array dropped trailing NULs, so distinct keys looked
+  # like duplicates): the round trip must hold; a regression is reported with this input as replay
+  for dnul in ({'a': 1, 'a\x00': 2}, {'b': {'c\x00': {}, 'c': {}}, 'b\x00': {'c': 3}}):
+    inp = dict(d=repr(dnul), sep='&')
+    with ctx.impl('nul-suffixed-keys', inp, 'flatten_dict / unflatten_dict raised on keys differing by trailing NULs'):
+      flat, empty = pu.flatten_dict(dnul)
+      ctx.case(('nul-keys', repr(dnul)), nontrivial=True)
+      ctx.expect(pu.unflatten_dict(flat, empty) == dnul, 'nul-suffixed-keys',
+                 'unflatten_dict(flatten_dict(d)) != d for keys differing by trailing NUL characters', inp)
 
   _mark('A dictionaries')
   # ================================================================== B. pytrees of arrays
